@@ -49,6 +49,144 @@ def lexToString : LexResult → String
   | .err rs => "err" ++ String.join (rs.map (fun r => s!" {r.1}:{r.2}"))
   | .panic => "panic"
 
+
+/-! store-layer protocol -/
+
+def cellOfSx : Sx → Option (Option Tm)
+  | .atom "U" => some none
+  | t => (tmOfSx t).map some
+
+def storeOfSx : Sx → Option (List (Option Tm))
+  | .list (.atom "S" :: cs) => cs.mapM cellOfSx
+  | _ => none
+
+def tctxOfSx : Sx → Option (List (Tm × Nat))
+  | .list (.atom "TC" :: es) => es.mapM (fun e => match e with
+      | .list [.atom "E", t, .atom off] => do some ((← tmOfSx t), (← off.toNat?))
+      | _ => none)
+  | _ => none
+
+def dctxOfSx : Sx → Option (List (Option (Tm × Nat)))
+  | .list (.atom "DC" :: es) => es.mapM (fun e => match e with
+      | .atom "N" => some none
+      | .list [.atom "E", t, .atom off] => do some (some ((← tmOfSx t), (← off.toNat?)))
+      | _ => none)
+  | _ => none
+
+/-- canonical printing of a term together with everything reachable in the store: cells are
+numbered by first occurrence; a resolved cell prints its contents the first time it is met. -/
+structure Canon where
+  map : List (Nat × Nat) := []   -- id ↦ canonical number
+  next : Nat := 0
+
+mutual
+partial def canonTm (store : List (Option Tm)) (t : Tm) (c : Canon) : String × Canon :=
+  match t with
+  | .hole id s =>
+    match c.map.find? (fun p => p.1 == id) with
+    | some p =>
+      let resolved := match store[id]? with | some (some _) => true | _ => false
+      (if resolved then s!"(r {p.2} {s})" else s!"(h {p.2} {s})", c)
+    | none =>
+      let k := c.next
+      let c := { map := (id, k) :: c.map, next := k + 1 }
+      match store[id]? with
+      | some (some sub) =>
+        let (str, c) := canonTm store sub c
+        (s!"(r {k} {s} {str})", c)
+      | _ => (s!"(h {k} {s})", c)
+  | .type => ("T", c) | .int => ("I", c) | .bool => ("B", c) | .tt => ("t", c) | .ff => ("f", c)
+  | .lit n => (s!"(n {n})", c)
+  | .var x i => (s!"(v {x} {i})", c)
+  | .lam x im d b =>
+    let (ds, c) := canonTm store d c
+    let (bs, c) := canonTm store b c
+    (s!"(L {x} {if im then 1 else 0} {ds} {bs})", c)
+  | .pi x im d b =>
+    let (ds, c) := canonTm store d c
+    let (bs, c) := canonTm store b c
+    (s!"(P {x} {if im then 1 else 0} {ds} {bs})", c)
+  | .app f a =>
+    let (fs, c) := canonTm store f c
+    let (as, c) := canonTm store a c
+    (s!"(A {fs} {as})", c)
+  | .letg ds b =>
+    let (dss, c) := canonDefs store ds c
+    let (bs, c) := canonTm store b c
+    (s!"(G {dss}{bs})", c)
+  | .neg a =>
+    let (as, c) := canonTm store a c
+    (s!"(N {as})", c)
+  | .bin o a b =>
+    let (as, c) := canonTm store a c
+    let (bs, c) := canonTm store b c
+    (s!"(O {opToString o} {as} {bs})", c)
+  | .ite a b d =>
+    let (as, c) := canonTm store a c
+    let (bs, c) := canonTm store b c
+    let (ds, c) := canonTm store d c
+    (s!"(F {as} {bs} {ds})", c)
+partial def canonDefs (store : List (Option Tm)) (ds : Defs) (c : Canon) : String × Canon :=
+  match ds with
+  | .nil => ("", c)
+  | .cons x a d r =>
+    let (as, c) := canonTm store a c
+    let (dstr, c) := canonTm store d c
+    let (rs, c) := canonDefs store r c
+    (s!"(D {x} {as} {dstr}) {rs}", c)
+end
+
+def ctxSame (s0 s1 : St) : String :=
+  let t := s0.tctx == s1.tctx
+  let d := s0.dctx == s1.dctx
+  if t && d then "ctx=same" else s!"ctx=changed({s1.tctx.length},{s1.dctx.length})"
+
+def runStore (fuel : Nat) (xs : List Sx) : String :=
+  match xs with
+  | [.atom "infer", st, tc, dc, t] =>
+    match storeOfSx st, tctxOfSx tc, dctxOfSx dc, tmOfSx t with
+    | some store, some tctx, some dctx, some t =>
+      let s0 : St := { store := store, tctx := tctx, dctx := dctx }
+      match inferS fuel t s0 with
+      | .ok (e, ty) s1 =>
+        let (es, c) := canonTm s1.store e {}
+        let (ts, _) := canonTm s1.store ty c
+        if s1.nerrs == 0 then s!"ok | {es} | {ts} | {ctxSame s0 s1}"
+        else s!"err {s1.nerrs} | {ctxSame s0 s1}"
+      | .fuel => "out-of-fuel"
+      | .panic p => s!"panic {p}"
+    | _, _, _, _ => "bad-op"
+  | [.atom "unify", st, dc, a, b] =>
+    match storeOfSx st, dctxOfSx dc, tmOfSx a, tmOfSx b with
+    | some store, some dctx, some a, some b =>
+      let s0 : St := { store := store, dctx := dctx }
+      match unifyS fuel a b s0 with
+      | .ok r s1 =>
+        let (as, c) := canonTm s1.store a {}
+        let (bs, _) := canonTm s1.store b c
+        s!"{r} | {as} | {bs} | {ctxSame s0 s1}"
+      | .fuel => "out-of-fuel"
+      | .panic p => s!"panic {p}"
+    | _, _, _, _ => "bad-op"
+  | [.atom "whnf", st, dc, a] =>
+    match storeOfSx st, dctxOfSx dc, tmOfSx a with
+    | some store, some dctx, some a =>
+      let s0 : St := { store := store, dctx := dctx }
+      match whnfS fuel a s0 with
+      | .ok r s1 => s!"{(canonTm s1.store r {}).1} | {ctxSame s0 s1}"
+      | .fuel => "out-of-fuel"
+      | .panic p => s!"panic {p}"
+    | _, _, _ => "bad-op"
+  | [.atom "syneq", st, a, b] =>
+    match storeOfSx st, tmOfSx a, tmOfSx b with
+    | some store, some a, some b =>
+      match synEqS fuel a b { store := store } with
+      | .ok r _ => s!"{r}"
+      | .fuel => "out-of-fuel"
+      | .panic p => s!"panic {p}"
+    | _, _, _ => "bad-op"
+  | _ => "bad-op"
+
 def runOp (xs : List Sx) : String :=
   match xs with
   | [.atom "echo", t] =>
@@ -93,6 +231,19 @@ def runOp (xs : List Sx) : String :=
             | none => "unclassified"
           "stuck " ++ why ++ " " ++ tmToString r
     | _, _ => "bad-op"
+  | [.atom "evalz", .atom fuel, t] =>
+    match fuel.toNat?, tmOfSx t with
+    | some n, some t =>
+      let r := evalFuel n t
+      if isValue r then "value " ++ tmToString r
+      else match step r with
+        | some _ => "fuel"
+        | none =>
+          let why := match stuckReason r with
+            | some w => stuckName w
+            | none => "unclassified"
+          "stuck " ++ why ++ " " ++ tmToString r
+    | _, _ => "bad-op"
   | [.atom "trace", .atom fuel, t] =>
     match fuel.toNat?, tmOfSx t with
     | some n, some t => " ; ".intercalate ((evalTrace n t).map tmToString)
@@ -103,6 +254,8 @@ def runOp (xs : List Sx) : String :=
       let text := cps.map Char.ofNat
       lexToString (tokenize (mkCharClass cls gs text) text)
     | _, _, _ => "bad-op"
+  | .atom "infer" :: _ | .atom "unify" :: _ | .atom "whnf" :: _ | .atom "syneq" :: _ =>
+    runStore 6000 xs
   | _ => "bad-op"
 
 partial def loop (h : IO.FS.Stream) (out : IO.FS.Stream) : IO Unit := do
